@@ -20,7 +20,9 @@ LEVEL_NOTE = ("Trusted: the walker over the hugr.model AST; the HUGR validators.
 TECHNIQUE = "structural monitor over compiled HUGR (modifier op chain, arities, wiring) + validator"
 RULE = ("with-statements with 1-4 modifiers from {dagger, control(c), control(c1,c2), control(array3), "
         "power(literal), power(nat parameter)} in any order with repetition; bodies of 1-4 gate calls "
-        "on 1-2 captured qubits (dagger-safe). distinct = distinct modifier sequences")
+        "on 1-2 captured qubits (dagger-safe), in 60% of the cases mixed with calls of fully flagged "
+        "declared functions taking captured classical values (int, float: copyable; int / bool "
+        "arrays: affine). distinct = distinct modifier sequences")
 FLOORS = {"stacks_compiled": 30, "modifier_ops_checked": 60}
 
 HDR = '''from guppylang import guppy
@@ -29,6 +31,18 @@ from guppylang.std.quantum import qubit, h, x, z, s, t, cx, cz
 dagger = object()
 control = object()
 power = object()
+
+@guppy.declare(control=True, dagger=True, power=True)
+def rotk(q: qubit, k: int) -> None: ...
+
+@guppy.declare(control=True, dagger=True, power=True)
+def rotf(q: qubit, f: float, k: int) -> None: ...
+
+@guppy.declare(control=True, dagger=True, power=True)
+def tab(q: qubit, a: array[int, 2]) -> None: ...
+
+@guppy.declare(control=True, dagger=True, power=True)
+def tab2(a: array[bool, 3], q: qubit, k: int, b: array[int, 2]) -> None: ...
 
 '''
 GATES1 = ["h", "x", "z", "s", "t"]
@@ -92,6 +106,13 @@ def build(rng):
             g = rng.choice(GATES1)
             body.append(f"        {g}({rng.choice(['q', 'r'])})")
         gates.append(g)
+    # classical captures: copyable values (int, float) and affine ones (arrays), in any order of
+    # first use — the block function's parameter order and the call site must agree
+    if rng.random() < 0.6:
+        extra = [f"        {rng.choice(['rotk(q, kk)', 'rotk(r, kk)', 'rotf(q, fl, kk)', 'rotf(r, fl, 2)', 'tab(q, ar)', 'tab(r, ar)', 'tab2(br, q, kk, ar)', 'tab2(br, r, 1, ar)'])}"
+                 for _ in range(rng.randint(1, 3))]
+        for e_ in extra:
+            body.insert(rng.randint(0, len(body)), e_)
     nested = rng.random() < 0.15 and len(parts) > 1
     if nested:
         # the same modifiers as nested with statements instead of one comma list
@@ -105,7 +126,9 @@ def build(rng):
     else:
         with_src = f"    with {', '.join(parts)}:\n" + "\n".join(body)
     text = (HDR + "@guppy\ndef main(q: qubit, r: qubit, c1: qubit, c2: qubit, c3: qubit, "
-            "cs: array[qubit, 3], n: nat) -> None:\n" + with_src + "\n")
+            "cs: array[qubit, 3], n: nat) -> None:\n"
+            "    kk = 3\n    fl = 0.5\n    ar = array(1, 2)\n    br = array(True, False, True)\n"
+            + with_src + "\n")
     return text, mods, gates, nested
 
 
